@@ -449,6 +449,9 @@ fn basic_tokenize(
                                             make_span!(start_loc),
                                         )));
                                     }
+                                    // Not an endraw tag. The next block start can overlap this
+                                    // one (eg `<<< endraw >>` with `<<`): resume one byte after it
+                                    offset -= 1;
                                 }
                                 syntax_error!("unexpected end of raw block", make_span!(start_loc));
                             }
